@@ -1,14 +1,15 @@
 #!/bin/bash
 # usage: tools/mutant_edit.sh '<python code editing files under the cwd (a scratch worktree of /repo)>' <Cxx> [tier]
 set -u
+VROOT="$(cd "$(dirname "$0")/.." && pwd)"
 CODE="$1"; PROP="$2"; TIER="${3:-quick}"
 WT=$(mktemp -d /tmp/mt_XXXXXX); rmdir "$WT"
 git -C /repo worktree add -q "$WT" HEAD || exit 3
-export VERIF_LEAN_DIR="${WT}_lean"; rsync -a /verif/lean/ "$VERIF_LEAN_DIR"/
+export VERIF_LEAN_DIR="${WT}_lean"; rsync -a "$VROOT"/lean/ "$VERIF_LEAN_DIR"/
 ( cd "$WT" && python3 -c "$CODE" ) || { echo "edit failed"; git -C /repo worktree remove --force "$WT"; exit 3; }
 git -C "$WT" diff --stat | tail -1
 ( cd "$WT" && /venv/bin/python -c "import sys; sys.path.insert(0,'src'); import morph_kgc" ) || echo "MUTANT DOES NOT IMPORT"
-VERIF_REPO="$WT" /verif/check "$PROP" "$TIER" 2>&1 | grep -v "^KNOWN-FINDING" | tail -3
+VERIF_REPO="$WT" "$VROOT"/check "$PROP" "$TIER" 2>&1 | grep -v "^KNOWN-FINDING" | tail -3
 rc=${PIPESTATUS[0]}
 git -C /repo worktree remove --force "$WT"; rm -rf "$VERIF_LEAN_DIR"
 exit $rc
